@@ -99,6 +99,9 @@ let project (r : raft) : string =
   (match r.r_leader_update with Some (lid, t) -> add (Printf.sprintf " lu=%s:%s" (sn lid) (sn t)) | None -> add " lu=-");
   let ((pt, pv), pc) = r.r_prev_state in
   add (Printf.sprintf " prev=%s:%s:%s" (sn pt) (sn pv) (sn pc));
+  (match r.r_log_query with
+   | Some (((fi, la), err), es) -> add (Printf.sprintf " lq=%s:%s:%s:%s" (sn fi) (sn la) (b2i err) (fmt_entries es))
+   | None -> add " lq=-");
   Buffer.contents b
 
 let fmt_update (u : update) =
@@ -177,6 +180,7 @@ let () =
                      | "NLA" -> onr (fun r -> { r with r_applied = nv 2 })
                      | "R" -> onr (fun r -> peer_read_index r (nv 2, nv 3))
                      | "LT" -> onr (fun r -> peer_leader_transfer r (nv 2))
+                     | "LQ" -> onr (fun r -> peer_query_raft_log r (nv 2) (nv 3))
                      | "UN" -> onr (fun r -> peer_unreachable r (nv 2))
                      | "SS" -> onr (fun r -> peer_snapshot_status r (nv 2) (f.(3) = "1"))
                      | "RR" -> let s = parse_snapshot f.(2) in onr (fun r -> peer_restore_remotes r s)
